@@ -161,6 +161,7 @@ def run(ctx):
 
     ctx.attempt(clenshaw_curtis_rule, ctx)
     ctx.attempt(strain_path_rule, ctx)
+    ctx.attempt(invariant_value_rule, ctx)
     from . import c05 as _c05
 
     # 'under the midpoint scheme, free motion conserves kinetic plus stored energy': the scheme relations the balance rests on
@@ -724,3 +725,55 @@ def strain_path_rule(ctx, rid="R18.18"):
             r.ok(f"s = {s}: C(s) = C_n + s (C_np1 - C_n)")
         else:
             r.fail(f.qualname, f"path:{s}", f.file, f.lineno, "_StrainPathState.__init__", f"s = {s}: Compute_C()[0, 0, 0, 0] is {got.data[0]!r}, the path gives {want[0]!r}: the abscissa runs from the new state to the old one (or off the segment): the quadrature nodes, their s-weighted tangent and the end-point shortcuts (s = 0 -> state_n, s = 1 -> state_np1) no longer belong to one path and S_quad : de != dW")
+
+
+def invariant_value_rule(ctx, rid="R18.20"):
+    """'the energy is unchanged by a superposed rigid rotation' / 'translating, rotating ... a whole problem ... hyperelastic':
+    a law depends on the deformation through the invariants of C and of the fibre directions, which are SCALARS of the
+    rotated problem: I1 = tr C, I2 = (tr^2 C - tr C^2) / 2, I3 = det C, I4 = T.C.T, I8 = T1.C.T2 (bilinear and symmetric in
+    the two directions).  The hand-written component expressions of `HyperElasticState` are interpreted on a symbolic
+    symmetric C and symbolic directions with all three components and compared with these definitions (a consistent
+    value / derivative pair that is NOT the invariant - a cross term written as if T1 == T2 - passes every
+    derivative check and still depends on the orientation of the problem in space)."""
+    from ..femchain import XFe, fe_hook_full
+    from ..xarray import XArray
+
+    repo = ctx.repo
+    r = ctx.rule(rid, "invariant values: Compute_I1, I2, I3, I4, I6, I8 of HyperElasticState equal tr C, (tr^2 C - tr C^2)/2, det C, T.C.T, T.C.T and T1.C.T2 for a symbolic symmetric C and fibre directions with three components", min_instances=6)
+    st = repo.cls("EasyFEA.Models.HyperElastic._state.HyperElasticState")
+    nm = [["cxx", "cxy", "cxz"], ["cxy", "cyy", "cyz"], ["cxz", "cyz", "czz"]]
+    Cm = [[Poly.var(nm[i][j]) for j in range(3)] for i in range(3)]
+    f1 = lambda p: XFe((1, 1), [p])
+    C9 = [f1(Cm[i][j]) for i in range(3) for j in range(3)]
+
+    class Dir:
+        def __init__(self, tag):
+            self.tag = tag
+            self.v = [Poly.var(f"{tag}{k}") for k in "xyz"]
+
+    T1, T2 = Dir("p"), Dir("q")
+    comps = lambda T: tuple(f1(x) for x in T.v)
+    obj = XObj(st, dict(_Compute_C=lambda: list(C9), _GetDims=lambda: (1, 1, 3), _Get_normalized_components=comps))
+    I = Interp(repo)
+    I.call_hook = fe_hook_full
+    tr = Cm[0][0] + Cm[1][1] + Cm[2][2]
+    C2 = [[sum((Cm[i][k] * Cm[k][j] for k in range(3)), Poly()) for j in range(3)] for i in range(3)]
+    det = (Cm[0][0] * (Cm[1][1] * Cm[2][2] - Cm[1][2] * Cm[2][1]) - Cm[0][1] * (Cm[1][0] * Cm[2][2] - Cm[1][2] * Cm[2][0]) + Cm[0][2] * (Cm[1][0] * Cm[2][1] - Cm[1][1] * Cm[2][0]))
+    quad = lambda a, b: sum((a.v[i] * Cm[i][j] * b.v[j] for i in range(3) for j in range(3)), Poly())
+    want = {"1": (tr, []), "2": ((tr * tr - (C2[0][0] + C2[1][1] + C2[2][2])) * Q(1, 2), []), "3": (det, []), "4": (quad(T1, T1), [T1]), "6": (quad(T2, T2), [T2]), "8": (quad(T1, T2), [T1, T2])}
+    for k, (w, args) in want.items():
+        fI = st.methods.get(f"Compute_I{k}")
+        if fI is None:
+            raise AnalysisError(f"HyperElasticState.Compute_I{k} not found")
+        r.instance(fn=fI.qualname)
+        try:
+            v = I.call_function(fI, list(args), self_obj=obj)
+        except XRaise as e:
+            r.fail(fI.qualname, f"I{k}", fI.file, fI.lineno, f"Compute_I{k}", f"raises {e}")
+            continue
+        v = XArray.from_nested(v).data[0] if not isinstance(v, Poly) else v
+        if is_zero(Poly.of(v) - w):
+            r.ok(f"I{k} == its definition")
+        else:
+            d = Poly.of(v) - w
+            r.fail(fI.qualname, f"I{k}", fI.file, fI.lineno, f"Compute_I{k}", f"I{k} is not {'tr C' if k == '1' else '(tr^2 C - tr C^2)/2' if k == '2' else 'det C' if k == '3' else 'T.C.T' if k in '46' else 'T1.C.T2'} for a general symmetric C and directions with three components (difference {str(d)[:120]}): the quantity is not a scalar of the rotated problem - the stored energy and the response depend on the orientation of the problem in space")
